@@ -82,7 +82,8 @@ pub fn observe(pal: &Palette, case: &Case) -> Obs {
     if case.disk {
         let dir = super::c01_c02::scratch_dir();
         let tid: String = format!("{:?}", std::thread::current().id()).chars().filter(|c| c.is_ascii_digit()).collect();
-        let path = dir.join(if case.variant == 2 { format!("c08-{}.v1.2024.shp", tid) } else { format!("c08-{}.shp", tid) });
+        // (variant 2: several dots; otherwise by turns a plain name and one without any extension)
+        let path = dir.join(if case.variant == 2 { format!("c08-{}.v1.2024.shp", tid) } else if case.ops.len() % 2 == 0 { format!("c08-{}-noext", tid) } else { format!("c08-{}.shp", tid) });
         if case.variant == 2 {
             // a neighbouring data set that shares the prefix of the name
             for ext in ["shx", "dbf"] {
@@ -486,6 +487,62 @@ pub fn with_info_verdicts(pal: &Palette, n: usize) -> Vec<(String, String)> {
     }
 }
 
+/// The complete writer over destinations of which operation k of the .shp (dev 0) resp. the .shx (dev 1) fails
+/// once: when the failure did not fall into the final drop, the three files hold the pairs whose call returned Ok,
+/// in order, shape i with row i.  None: the fault did not fire.
+pub fn fault_verdicts(pal: &Palette, ops: &[POp], dev: u8, k: u64) -> Option<Vec<(String, String)>> {
+    let env = PEnv::new();
+    (if dev == 0 { &env.shp } else { &env.shx }).fail_at(k, crate::dev::FaultMode::OneShot);
+    let results = exec_complete(pal, ops, &env);
+    let fired: Vec<u32> = env.shp.fault_calls().into_iter().chain(env.shx.fault_calls()).collect();
+    if fired.is_empty() {
+        return None;
+    }
+    let mut out = vec![];
+    for (i, r) in results.iter().enumerate() {
+        if let CallRes::Panic(p) = r {
+            out.push(("fault-run:panic".to_string(), format!("call {} panicked: {}", i, p)));
+        }
+    }
+    if fired.iter().any(|c| *c as usize >= ops.len()) {
+        return Some(out);
+    }
+    for c in &fired {
+        if !matches!(results[*c as usize], CallRes::Err(_)) {
+            out.push(("fault-run:failure-not-reported".to_string(), format!("operation {} of the .{} failed during call {}, which returned {:?}", k, ["shp", "shx"][dev as usize], c, results[*c as usize])));
+        }
+    }
+    let accepted: Vec<(usize, usize)> = ops.iter().enumerate().filter_map(|(i, op)| match op {
+        POp::Good(j) if results.get(i) == Some(&CallRes::Ok) => Some((*j as usize, i)),
+        _ => None,
+    }).collect();
+    let (shp, shx, dbf) = (env.shp.data(), env.shx.data(), env.dbf.data());
+    let decl = |b: &[u8]| b.get(24..28).map(|x| i32::from_be_bytes(x.try_into().unwrap()) as i64 * 2).filter(|l| *l >= 100 && *l as usize <= b.len()).map(|l| l as usize).unwrap_or(b.len());
+    let (shp_v, shx_v) = (&shp[..decl(&shp)], &shx[..decl(&shx)]);
+    let n_shp = codec::decode_file(shp_v, &DecodeOpts { strict: true }).map(|d| d.records.len() as i64).unwrap_or(-1);
+    let n_shx = codec::decode_shx(shx_v).map(|(_, e)| e.len() as i64).unwrap_or(-1);
+    let n_dbf = table::dbf_declared_rows(&dbf).map(|x| x as i64).unwrap_or(-1);
+    let ctxt = format!("operation {} of the .{} failed once during call {:?}; results {:?}", k, ["shp", "shx"][dev as usize], fired, results);
+    if n_shp != accepted.len() as i64 || n_shx != n_shp || n_dbf != n_shp {
+        out.push(("fault-run:entry-counts-differ".to_string(), format!("{}: {} records / {} index entries / {} rows for {} accepted pairs", ctxt, n_shp, n_shx, n_dbf, accepted.len())));
+        return Some(out);
+    }
+    let read = ShapeReader::with_shx(Dev::quiet(shp_v.to_vec()), Dev::quiet(shx_v.to_vec())).map_err(|e| err_kind(&e)).and_then(|sr| {
+        let dr = shapefile::dbase::Reader::new(Dev::quiet(dbf.clone())).map_err(|e| format!("dbf: {}", e))?;
+        Reader::new(sr, dr).read().map_err(|e| err_kind(&e))
+    });
+    match read {
+        Err(e) => out.push(("fault-run:read-error".to_string(), format!("{}: {}", ctxt, e))),
+        Ok(pairs) => {
+            let ok = pairs.len() == accepted.len() && pairs.iter().zip(&accepted).all(|((s, row), (j, i))| super::c01_c02::cmp_read(&pal.built[*j], &from_lib(s)).is_none() && table::row_idx(row) == Some(*i as i64));
+            if !ok {
+                out.push(("fault-run:pairs-differ".to_string(), format!("{}: the reader returns rows {:?} for the accepted calls {:?}", ctxt, pairs.iter().map(|p| table::row_idx(&p.1)).collect::<Vec<_>>(), accepted.iter().map(|a| a.1).collect::<Vec<_>>())));
+            }
+        }
+    }
+    Some(out)
+}
+
 fn enabled(h: &Hist) -> Vec<u8> {
     if h.len() == CFG {
         vec![0, 1]
@@ -620,6 +677,36 @@ pub fn check(tier: Tier) -> i32 {
             }
         }
     }
+    // the complete writer under every single fault on the .shp / .shx (all-pairs histories of up to 3 calls)
+    for (ti, ty) in types.iter().enumerate() {
+        for n in 1..=3usize {
+            for t in crate::structs::tuples(2, n) {
+                let ops: Vec<POp> = t.iter().map(|k| POp::Good(*k as u8)).collect();
+                for dev in 0..2u8 {
+                    let mut k = 0u64;
+                    let mut misses = 0;
+                    while misses < 6 {
+                        let cj = json!({"ty": ty.name(), "fault_ops": pops_name(&ops), "fault_on": (["shp", "shx"][dev as usize]), "operation": k});
+                        match catch(|| fault_verdicts(&pals[ti], &ops, dev, k)) {
+                            Ok(None) => misses += 1,
+                            Ok(Some(v)) => {
+                                misses = 0;
+                                let mut hh = Fnv::new();
+                                hh.str(&cj.to_string());
+                                ladder_ctx.case_done(hh.finish(), true, 15);
+                                ladder_ctx.lib_calls += n as u64 + 3;
+                                for (sig, d) in v {
+                                    ladder_ctx.violation(sig, || cj.clone(), || d);
+                                }
+                            }
+                            Err(p) => ladder_ctx.violation(format!("fault-run:{}", p.sig()), || cj.clone(), || p.msg.clone()),
+                        }
+                        k += 1;
+                    }
+                }
+            }
+        }
+    }
     // a second data set created from the table description of the first (Reader::into_table_info,
     // Writer::from_path_with_info): same pairs in, same three files out
     for (ti, ty) in types.iter().enumerate() {
@@ -647,7 +734,7 @@ pub fn check(tier: Tier) -> i32 {
             tier,
             level: "model_checking",
             engine: "E1 stateright BFS over write-call histories on the real complete Writer (three instrumented devices / from_path), read back with the real complete Reader",
-            rule: "every history up to the depth bound over {OkA, OkB, BadType, RowMissingField, RowWrongType, RowWrongFirstField} (first call accepted), rows carry the position of their call; in memory to the full depth, through Writer::from_path + shapefile::read / Reader::from_path (over paths that already hold longer files, next to the companion files of a data set whose name differs by case only; also with a file name that has several dots, the companion files being looked up under their proper names) and into in-memory buffers that already hold longer stale content, and with a shape whose measures are all no-data resp. with empty parts in the middle and at the end, each to depth 3; all-success histories also through one write_shapes_and_records call; a second data set created through Reader::into_table_info + Writer::from_path_with_info gives the same three files; every file read back through read, iter_shapes_and_records and their typed forms read_as / iter_shapes_and_records_as; plus all-success histories of 255..2049 pairs (record-count ladder around powers of two, 1025 also by path); non-trivial = >= 2 calls",
+            rule: "every history up to the depth bound over {OkA, OkB, BadType, RowMissingField, RowWrongType, RowWrongFirstField} (first call accepted), rows carry the position of their call; in memory to the full depth, through Writer::from_path + shapefile::read / Reader::from_path (over paths that already hold longer files, next to the companion files of a data set whose name differs by case only; also with a file name that has several dots, the companion files being looked up under their proper names) and into in-memory buffers that already hold longer stale content, and with a shape whose measures are all no-data resp. with empty parts in the middle and at the end, each to depth 3; all-success histories also through one write_shapes_and_records call; all-success histories of up to 3 calls under every single fault on the .shp / .shx (the files then hold the pairs whose call returned Ok); a second data set created through Reader::into_table_info + Writer::from_path_with_info gives the same three files; every file read back through read, iter_shapes_and_records and their typed forms read_as / iter_shapes_and_records_as; plus all-success histories of 255..2049 pairs (record-count ladder around powers of two, 1025 also by path); non-trivial = >= 2 calls",
             bounds: json!({"depth": depth, "disk_depth": disk_depth, "types": types.iter().map(|t| t.name()).collect::<Vec<_>>(), "alphabet": POPS.iter().map(|p| p.name()).collect::<Vec<_>>()}),
             exhaustive: true,
             assumptions: vec!["dbf tables without deleted rows; entry counts are read by the harness from the raw bytes (RefCodec scan, .shx parse, .dbf header bytes 4..8)".into()],
@@ -663,6 +750,13 @@ pub fn check(tier: Tier) -> i32 {
 }
 
 pub fn replay(v: &Value) -> Vec<(String, String)> {
+    if let Some(o) = v.get("fault_ops").and_then(|x| x.as_str()) {
+        let parsed = (|| Some((Ty::from_name(v.get("ty")?.as_str()?)?, pops_from_name(o)?, if v.get("fault_on")?.as_str()? == "shp" { 0u8 } else { 1u8 }, v.get("operation")?.as_u64()?)))();
+        return match parsed {
+            Some((ty, ops, dev, k)) => fault_verdicts(&Palette::new(ty, Some(other_of(ty))), &ops, dev, k).unwrap_or_default(),
+            None => vec![("bad-replay-file".into(), "cannot parse case".into())],
+        };
+    }
     if v.get("route").and_then(|x| x.as_str()) == Some("from_path_with_info") {
         return match (v.get("ty").and_then(|x| x.as_str()).and_then(Ty::from_name), v.get("pairs").and_then(|x| x.as_u64())) {
             (Some(ty), Some(n)) => {
